@@ -262,9 +262,15 @@ def rule_report_complete(ctx, rep, rule_id="R-REPORT-COMPLETE"):
     r = ctx.resolver(fn)
     ctor = [n for n in walk_no_nested(fn.node) if isinstance(n, ast.Call) and r.callee_qname(n) == RESULT]
     seen = set()
-    for c in ctor:
-        v = next((k.value for k in c.keywords if k.arg == "changeset"), None)
+    for c, (field_kw, hint, getter) in [(c_, f_) for c_ in ctor for f_ in (("changeset", "changeset", "get_changesets"), ("unfixedFindings", "finding", "get_unfixed_findings"), ("failedFiles", "fail", "get_failures"))]:
+        v = next((k.value for k in c.keywords if k.arg == field_kw), None)
         v = r.expand(v) if v is not None else None
+        if isinstance(v, (ast.ListComp, ast.GeneratorExp, ast.SetComp)) and any(g.ifs for g in v.generators) or \
+                (isinstance(v, ast.Call) and isinstance(v.func, ast.Name) and v.func.id in ("list", "tuple", "filter") and v.args
+                 and (v.func.id == "filter" or isinstance(v.args[0], (ast.ListComp, ast.GeneratorExp)) and any(g.ifs for g in v.args[0].generators))):
+            rep.check(rule_id, fn.qname, fn.loc(c), False, f"element-preserving:{field_kw}",
+                      f"`{field_kw}={unparse(v)[:60]}` filters what the context recorded for the codemod: entries are dropped from the report")
+            continue
         work = [v] if v is not None else []
         while work:
             e = work.pop()
@@ -278,8 +284,8 @@ def rule_report_complete(ctx, rep, rule_id="R-REPORT-COMPLETE"):
                 from ..model import bind_args
 
                 b = bind_args(e, t, False)
-                cs_params = [p for p, a in b.items() if isinstance(a, ast.Call) and last_attr(a.func) == "get_changesets" or isinstance(a, ast.Name) and "changeset" in a.id.lower()]
-                cs_params = cs_params or [p for p in t.params() if "changeset" in p.lower()]
+                cs_params = [p for p, a in b.items() if isinstance(a, ast.Call) and last_attr(a.func) == getter or isinstance(a, ast.Name) and hint in a.id.lower()]
+                cs_params = cs_params or [p for p in t.params() if hint in p.lower()]
                 rets = [n.value for n in walk_no_nested(t.node) if isinstance(n, ast.Return) and n.value is not None]
                 ok = bool(rets) and bool(cs_params)
                 why = ""
@@ -290,10 +296,10 @@ def rule_report_complete(ctx, rep, rule_id="R-REPORT-COMPLETE"):
                 for n in ast.walk(t.node):  # nested helper functions included
                     if isinstance(n, (ast.ListComp, ast.GeneratorExp, ast.SetComp)) and any(g.ifs for g in n.generators):
                         txt = " ".join(unparse(g.iter) for g in n.generators)
-                        if "change" in txt.lower():
+                        if "change" in txt.lower() or hint in txt.lower():
                             ok = False
                             why = f"`{unparse(n)[:70]}` filters while rebuilding the changesets (entries of the report are dropped)"
-                rep.check(rule_id, t.qname, t.loc(), ok, "element-preserving", why or "changesets parameter not identified")
+                rep.check(rule_id, t.qname, t.loc(), ok, f"element-preserving:{field_kw}", why or f"{field_kw} parameter not identified")
             work += list(e.args)
     run = ctx.prog.func("codemodder.codemodder.run")
     rr = ctx.resolver(run)
@@ -436,4 +442,8 @@ def check(ctx, rep):
 
     # a finding's own identity (rule id, name, url) reaches the report unaltered by other findings / codemods
     rule_finding_owns_rule(ctx, rep)
+    from .c17 import rule_select_unique
+
+    # one result per executed codemod: a codemod selected twice is executed and reported twice
+    rule_select_unique(ctx, rep)
     rep.not_covered += ["JSON-schema validity of pydantic's serialisation", "line numbers lying inside the file", "non-ASCII content"]
